@@ -387,7 +387,7 @@ def main(argv=None):
             print("HARNESS-ERROR %s" % h)
         rc = rc or 2
 
-    if not harness_errors:
+    if not harness_errors and os.path.realpath(REPO) == "/repo":
         ev = {
             "property_id": prop, "tier": a.tier, "seed": seed, "level": "exploration",
             "coverage": {
